@@ -46,6 +46,8 @@ fn server(mut sock: UnixStream, behaviour: String, log: Arc<Mutex<Vec<String>>>,
                 let mut w = |m: StructureTag| { ownber::write(&m, &mut out, &mut |_| 0); };
                 match k[1].id {
                     0 => w(message(id, ldap_result(1, rc, b"", b"bind", None), None)),
+                    // "cut": one entry of a search, then the connection is dropped (no SearchResultDone)
+                    3 if behaviour == "cut" => { let mut o2 = vec![]; ownber::write(&message(id, entry(b"cn=e1", &[(b"cn", vec![b"e1".to_vec()])]), None), &mut o2, &mut |_| 0); let _ = sock.write_all(&o2); return; }
                     3 => { w(message(id, entry(b"cn=e1", &[(b"cn", vec![b"e1".to_vec()])]), None)); w(message(id, entry(b"cn=e2", &[(b"cn", vec![b"e2".to_vec()])]), None)); w(message(id, ldap_result(5, rc, b"", b"done", Some(vec![b"ldap://r/".to_vec()])), None)); }
                     6 => w(message(id, ldap_result(7, rc, b"", b"", None), None)), 8 => w(message(id, ldap_result(9, rc, b"", b"", None), None)),
                     10 => w(message(id, ldap_result(11, rc, b"dc=m", b"del", None), None)), 12 => w(message(id, ldap_result(13, rc, b"", b"", None), None)),
@@ -152,7 +154,7 @@ async fn run_async_side(sock: UnixStream, calls: &[(Mods, Op, bool)], closing: b
 
 pub fn gen(rng: &mut Rng, n: usize, out: &mut Vec<String>) {
     for i in 0..n {
-        let behaviour = match i % 8 { 0 | 1 | 2 | 3 => "ok".to_string(), 4 => format!("rc{}", *rng.pick(&[32, 49, 10, 4])), 5 => format!("close{}", 1 + rng.below(3)), 6 => "silent".to_string(), _ => "ok".to_string() };
+        let behaviour = match i % 8 { 0 | 1 | 2 | 3 => "ok".to_string(), 4 => format!("rc{}", *rng.pick(&[32, 49, 10, 4])), 5 => format!("close{}", 1 + rng.below(3)), 6 => "silent".to_string(), _ => if i % 16 == 7 { "cut".to_string() } else { "ok".to_string() } };
         let k = 1 + rng.below(5) as usize;
         let mut toks = vec![];
         for j in 0..k {
@@ -173,7 +175,7 @@ pub fn run(args: &[&str]) -> (String, Option<String>) {
         let (a, b) = UnixStream::pair().ok()?;
         let log = Arc::new(Mutex::new(vec![])); let l2 = log.clone(); let bh = behaviour.clone();
         let gone = Arc::new(std::sync::atomic::AtomicBool::new(false)); let g2 = gone.clone();
-        let closing = behaviour.starts_with("close");
+        let closing = behaviour.starts_with("close") || behaviour == "cut";
         let th = std::thread::spawn(move || server(b, bh, l2, g2));
         let calls2 = calls.clone();
         let res = std::panic::catch_unwind(std::panic::AssertUnwindSafe(move || {
